@@ -577,6 +577,7 @@ fn sketch_inc(table: &mut BTreeMap<u32, u64>, table_len: usize, hash: u64) {
 fn predict_lru(
     cfg: &Cfg,
     m: &Model,
+    m_after: &Model,
     pre: &Snapshot,
     op: Op,
     est: &[u8],
@@ -585,6 +586,17 @@ fn predict_lru(
     let mut r: Vec<(u8, u32)> = pre.entries.iter().map(|e| (e.key as u8, e.weight)).collect();
     r.sort_by_key(|(k, _)| m.keys[*k as usize].use_seq);
     let cap = cfg.cap;
+    // expiry purge: everything whose ttl / tti deadline has passed at the reading of
+    // this call (U: judged before the call acts; S: by the maintenance run after it)
+    let now = m_after.now;
+    let purge = |r: &mut Vec<(u8, u32)>, mm: &Model| {
+        r.retain(|(k, _)| {
+            let km = &mm.keys[*k as usize];
+            let ttl_dead = cfg.ttl_ms().map(|d| now >= km.t_ins + d).unwrap_or(false);
+            let tti_dead = cfg.tti_ms().map(|d| now >= km.a_true + d).unwrap_or(false);
+            !(km.has && (ttl_dead || tti_dead))
+        })
+    };
     let evict_excess = |r: &mut Vec<(u8, u32)>| {
         if let Some(cap) = cap {
             let total: u64 = r.iter().map(|x| x.1 as u64).sum();
@@ -597,6 +609,7 @@ fn predict_lru(
     };
     let u = cfg.kind == Kind::U;
     if u && matches!(op, Op::Ins(..) | Op::Get(_) | Op::Con(_) | Op::Inv(_)) {
+        purge(&mut r, m);
         evict_excess(&mut r);
     }
     let mut decision = None;
@@ -662,6 +675,7 @@ fn predict_lru(
         _ => {}
     }
     if !u {
+        purge(&mut r, m_after);
         evict_excess(&mut r);
     }
     (r.into_iter().map(|x| x.0).collect(), decision)
@@ -971,6 +985,44 @@ pub fn step(cfg: &Cfg, sut: &mut Sut, m: &mut Model, pre: &Snapshot, op: Op, has
         }
     }
 
+    // ---- C12 / C03: no live resident is evicted for size unless that was needed. When no
+    // new key was admitted in this step, the last victim of a size eviction is one
+    // without which the cache was still above its capacity; if every live resident that
+    // vanished would still fit next to what is held now, none of them had to go.
+    if let Some(cap) = cfg.cap {
+        let admitted_now = post.entries.iter().any(|e| {
+            (u || e.admitted) && !pre_phys.get(&(e.key as u8)).map(|p| u || p.admitted).unwrap_or(false)
+        });
+        let gone: Vec<&EntrySnap> = pre
+            .entries
+            .iter()
+            .filter(|e| (u || e.admitted) && !post_phys.contains_key(&(e.key as u8)) && m.live(cfg, e.key as u8))
+            .collect();
+        // judged in hindsight, so only where the size eviction is the last thing the step
+        // did: U get/contains_key (purge, evict, then only read); S an explicit or
+        // automatic sync() (writes and purge come before the eviction inside the run)
+        let eviction_last = if u { matches!(op, Op::Get(_) | Op::Con(_)) } else { matches!(op, Op::Sync) || cfg.autosync };
+        // a key whose first insert was still queued and that is absent afterwards may have
+        // been admitted and evicted inside the run: then the visible victims are not all
+        let transient = pre.write_ops.iter().any(|o| matches!(o, OpSnap::Upsert { entry, .. } if !entry.admitted && !post_phys.contains_key(&(entry.key as u8))))
+            || matches!(op, Op::Ins(k, _) if !pre_phys.contains_key(&k) && !post_phys.contains_key(&k));
+        if eviction_last && !admitted_now && !transient && !gone.is_empty() {
+            let total = sum_w(&post);
+            // the weight an entry had when it was evicted is its latest one (the step may
+            // have applied an update of it first)
+            let latest = |e: &EntrySnap| cfg.pw(m.keys[e.key as usize].w) as u64;
+            if gone.iter().all(|e| total + latest(e) <= cap) {
+                let d = format!(
+                    "after {}: live resident(s) {:?} were evicted although the cache now holds weight {total} of {cap}: each of them would still fit",
+                    op.text(),
+                    gone.iter().map(|e| (e.key, e.weight)).collect::<Vec<_>>()
+                );
+                viol.push(v("C12", format!("{kdn}:evicted-without-need:{okind}"), d.clone()));
+                viol.push(v("C03", format!("{kdn}:evicted-without-need:{okind}"), d));
+            }
+        }
+    }
+
     // ---- C04: resident weight within capacity
     if let Some(cap) = cfg.cap {
         let total = sum_w(&post);
@@ -1140,9 +1192,12 @@ pub fn step(cfg: &Cfg, sut: &mut Sut, m: &mut Model, pre: &Snapshot, op: Op, has
 
     // ---- C12 / C13: recency order, victims, admission decision
     if cfg.lru && (u || cfg.autosync) {
-        let (want, decision) = predict_lru(cfg, &m_pre, pre, op, &est);
+        let (want, decision) = predict_lru(cfg, &m_pre, m, pre, op, &est);
         let got: Vec<u8> = post.probation.nodes.iter().map(|n| n.key as u8).collect();
-        if want != got {
+        // a dead entry that maintenance failed to purge is reported by the release
+        // clause (C11); the recency comparison would only repeat it
+        let purge_failed = viol.iter().any(|x| x.sig.contains("-entry-kept:"));
+        if want != got && !purge_failed {
             let mut ws = want.clone();
             ws.sort();
             let mut gs = got.clone();
@@ -1170,6 +1225,18 @@ pub fn step(cfg: &Cfg, sut: &mut Sut, m: &mut Model, pre: &Snapshot, op: Op, has
         }
     }
 
+    // ---- C13/C14: the sketch is switched on once the cache is half full (U: by the
+    // insert that gets it there; S: by the maintenance run), so that lookups from then
+    // on are recorded
+    if let Some(cap) = cfg.cap {
+        let reached = post.weighted_size >= cap / 2;
+        let checked_now = if u { matches!(op, Op::Ins(k, _) if !pre_phys.contains_key(&k) && post_phys.contains_key(&k)) } else { m.maintained && matches!(op, Op::Sync) || cfg.autosync };
+        if checked_now && reached && !post.sketch.enabled {
+            let d = format!("after {}: weighted_size {} >= max_capacity/2 = {} but the popularity sketch is still disabled (lookups are not recorded)", op.text(), post.weighted_size, cap / 2);
+            viol.push(v("C14", format!("{kdn}:sketch-not-enabled-at-half-full"), d.clone()));
+            viol.push(v("C13", format!("{kdn}:sketch-not-enabled-at-half-full"), d));
+        }
+    }
     // ---- C14 (cache clause): the table is allocated once, when the sketch is enabled;
     // allocating it again forgets every recorded lookup without an aging step
     if pre.sketch.table_len > 0 && post.sketch.table_len != pre.sketch.table_len && !pre.sketch.table.is_empty() {
